@@ -192,6 +192,10 @@ func ScanSnapshot(in io.Reader, prefix io.Writer, opts *Opts) (*Snapshot, []byte
 			}
 		}
 	}
+	if s.state == done && suffix == nil {
+		// The race detector footer was consumed; hand back what was read ahead.
+		suffix = append([]byte{}, r.buffered()...)
+	}
 	if s.Goroutines != nil {
 		if opts.NameArguments {
 			nameArguments(s.Goroutines)
